@@ -12,7 +12,7 @@ import (
 
 func init() {
 	register(&PropDef{
-		ID: "C17", Level: "exploration", Quick: 7500, Thorough: 250000, QuickCap: 110,
+		ID: "C17", Level: "exploration", Quick: 7500, Thorough: 250000, QuickCap: 110, PerProc: 800,
 		Rule:   "each run = one tape of 3-40 pre-drawn operation records executed against three servers (btree, leveldb-memory, leveldb-disk; every fourth run also the leveldb-memory engine behind a real gRPC connection on a loopback socket, which must answer exactly like the direct-call stub): table create/delete/re-create, family changes, DropRowRange prefix/all, MutateRow(s), CheckAndMutateRow, ReadModifyWriteRow, reads with row sets, limits and filter trees (including invalid nodes that evaluation reaches only on some rows, so the scan fails part-way), SampleRowKeys with identical sampler draws; the normalised responses (status code, rows and cells in order, predicate results, per-entry statuses, table lists and schemas, sampled keys) are compared pairwise; distinct = hash of op shapes; non-trivial = at least one read that failed part-way or was cut by a limit",
 		Real:   []string{"bttest handlers on BtreeStorage, LeveldbMemStorage, LeveldbDiskStorage (Rows contract: iteration stops when the callback returns false, range bounds, Clear, Get returns a copy)"},
 		Stub:   []string{"gRPC transport", "sampler random source (same draws for the three servers)"},
